@@ -161,7 +161,10 @@ def handle : Handler := fun m j =>
         let base := (← a[0]!.getStr?).toList
         let loc := (← a[1]!.getStr?).toList
         let r := readP fs kfuel fuel cwdS (comps cwdS) base loc (← a[2]!.getNat?) (← a[3]!.getNat?)
-        out := out.push (callJ r.1 r.2)
+        -- hypothesis of C10_pathmax_safe: both answers of realpath are link-free
+        let lf := linkFreeAnswer fs (realpathP fs kfuel fuel cwdS (comps cwdS) (tensorPath base loc)) &&
+          linkFreeAnswer fs (realpathP fs kfuel fuel cwdS (comps cwdS) base)
+        out := out.push ((callJ r.1 r.2).setObjVal! "lf" (toJson lf))
       return obj [("r", Json.arr out)]
   | "path.readsTB" => some do
       -- a bytes LOCATION: queries [kind, base, loc, offset, length, zero, ep]
